@@ -1059,6 +1059,15 @@ class CodeGenerator(NodeVisitor):
 
     def visit_Include(self, node: nodes.Include, frame: Frame) -> None:
         """Handles includes."""
+        # If an extends is active, an include outside a block renders
+        # nothing, like any other output of a child template.
+        if frame.require_output_check:
+            if self.has_known_extends:
+                return
+
+            self.writeline("if parent_template is None:")
+            self.indent()
+
         if node.ignore_missing:
             self.writeline("try:")
             self.indent()
@@ -1120,6 +1129,9 @@ class CodeGenerator(NodeVisitor):
             self.writeline("yield from template._get_default_module()._body_stream")
 
         if node.ignore_missing:
+            self.outdent()
+
+        if frame.require_output_check:
             self.outdent()
 
     def _import_common(
